@@ -134,7 +134,7 @@ Print Assumptions C07_cancel_full.
    inside the loop without its callback, corpus/C07/restored_timer_expires_in_boot.txt). *)
 Theorem C07_restart_restores_all : forall e c s,
   wf_cfg c -> NoDup (map r_gpio (c_relays c)) -> NoDup (map r_chan (c_relays c)) ->
-  TrO s -> 0 <= cnt0 s -> tb s <= now s ->
+  TrO s -> 0 <= cnt0 s -> tb s <= now s -> 0 <= upc s -> upc s * 4294967296 <= cnt0 s + (now s - tb s) ->
   let s' := boot e c s in
   NW s' ->
   forall a r, In (a, r) (enum 0 (c_relays c)) -> restoring r = true ->
@@ -153,6 +153,7 @@ Print Assumptions C07_restart_restores_all.
 Example C07_restart_all_hypotheses_satisfiable :
   wf_cfg two_cfg /\ NoDup (map r_gpio (c_relays two_cfg)) /\ NoDup (map r_chan (c_relays two_cfg)) /\
   (length (c_relays two_cfg) <= 8)%nat /\ TrO two_pre /\ 0 <= cnt0 two_pre /\ tb two_pre <= now two_pre /\
+  0 <= upc two_pre /\ upc two_pre * 4294967296 <= cnt0 two_pre + (now two_pre - tb two_pre) /\
   NW (boot true two_cfg two_pre) /\
   (fl_relay two_pre, fl_t2 two_pre) = ([1; 1; 0; 0; 0; 0; 0; 0], [4042; 6052; 0; 0; 0; 0; 0; 0]) /\
   filter (fun o => match o with GArm t0 _ _ _ => now two_pre <=? t0 | _ => false end) (outs (boot true two_cfg two_pre)) =
@@ -212,7 +213,7 @@ Print Assumptions C07_cancel_full_wrap.
 
 Theorem C07_restart_restores_all_wrap : forall (wr : Wraps) e c s,
   wf_cfg c -> NoDup (map r_gpio (c_relays c)) -> NoDup (map r_chan (c_relays c)) ->
-  TrO s -> 0 <= cnt0 s -> tb s <= now s ->
+  TrO s -> 0 <= cnt0 s -> tb s <= now s -> 0 <= upc s -> upc s * 4294967296 <= cnt0 s + (now s - tb s) ->
   let s' := boot e c s in
   NWw s' ->
   forall a r, In (a, r) (enum 0 (c_relays c)) -> restoring r = true ->
